@@ -238,16 +238,17 @@ class LogConfig(object):
                              var.name,
                              element_id,
                              var.get_storage_and_fetch_byte())
-                pk.data.append(var.get_storage_and_fetch_byte())
                 if self.useV2:
-                    size_to_add = 2
+                    size_to_add = 3
                     if pk.available_data_size() >= size_to_add:
+                        pk.data.append(var.get_storage_and_fetch_byte())
                         pk.data.append(element_id & 0x0ff)
                         pk.data.append((element_id >> 8) & 0x0ff)
                     else:
                         # Packet is full
                         return False, i
                 else:
+                    pk.data.append(var.get_storage_and_fetch_byte())
                     pk.data.append(element_id)
 
         return True, i
